@@ -27,6 +27,7 @@ SFone == { SFvalid }
 
 R1 == {"r1"}
 R2 == {"r1", "r2"}
+R3 == {"r1", "r2", "r3"}
 
 \* programs (orderings) - the registered checks take these from the code (binding X);
 \* the literals below are the pinned code and the repaired code
